@@ -44,8 +44,30 @@ def conn(o, clock, relay):
     return c
 
 
-def expected_inbound(o, relay):
-    exp = (b"ok\n" if relay else b"") + o._expect_this()
+def _hkdf(key, n, info):
+    """RFC 5869 HKDF-SHA256 with an empty salt, written out here so that the reference does not come from the code under test"""
+    import hmac
+    import hashlib
+    prk = hmac.new(b"\x00" * 32, key, hashlib.sha256).digest()
+    okm, t, i = b"", b"", 1
+    while len(okm) < n:
+        t = hmac.new(prk, t + info + bytes([i]), hashlib.sha256).digest()
+        okm += t
+        i += 1
+    return okm[:n]
+
+
+def ref_handshake(key, from_sender):
+    """docs/transit.md: 'transit sender <hex(HKDF(key, transit_sender))> ready\\n\\n' / 'transit receiver <...> ready\\n\\n'"""
+    import binascii
+    if from_sender:
+        return b"transit sender " + binascii.hexlify(_hkdf(key, 32, b"transit_sender")) + b" ready\n\n"
+    return b"transit receiver " + binascii.hexlify(_hkdf(key, 32, b"transit_receiver")) + b" ready\n\n"
+
+
+def expected_inbound(o, relay, key=KEY):
+    """what the honest peer (holding `key`) sends to o: an independent reference, not o._expect_this()"""
+    exp = (b"ok\n" if relay else b"") + ref_handshake(key, not o.is_sender)
     if not o.is_sender:
         exp += b"go\n"
     return exp
@@ -67,16 +89,23 @@ class Handshake(Job):
                  "build_sender_handshake/build_receiver_handshake"]
     shadows = SHADOWS
 
-    def __init__(self, sender, relay, n, split):
-        self.sender, self.relay, self.n, self.split = sender, relay, n, split
-        self.name = "hs_%s_%s_n%d_%s" % ("sender" if sender else "receiver", "relay" if relay else "direct", n, "split" if split else "whole")
+    def __init__(self, sender, relay, n, split, decoy=False):
+        self.sender, self.relay, self.n, self.split, self.decoy = sender, relay, n, split, decoy
+        self.name = "hs_%s_%s_n%d_%s%s" % ("sender" if sender else "receiver", "relay" if relay else "direct", n, "split" if split else "whole", "_decoy" if decoy else "")
         self.bounds = dict(role="sender" if sender else "receiver", relay=relay, symbolic_bytes=n,
+                           other_transfers="a second Transit object of the same role holding ANOTHER key lives in the process and starts negotiating first" if decoy else "none",
                            honest_prefix="every length 0..len(expected)", chunking="every cut of the symbolic part" if split else "one chunk")
         self.must_reach = (("nt:rejected",) if n >= 1 else ()) + ("nt:waiting", "nt:selected")
 
     def run(self, inbound_chunks):
         clock = Clock()
         o = owner(self.sender, clock)
+        if self.decoy:
+            # a concurrent transfer in the same process: another Transit object with another key, negotiating on its own connection
+            o2 = owner(self.sender, clock, key=OTHERKEY)
+            c2 = conn(o2, clock, self.relay)
+            c2.startNegotiation().addErrback(lambda f: None)
+            c2.dataReceived((b"ok\n" if self.relay else b"") + ref_handshake(OTHERKEY, not self.sender)[:20])
         c = conn(o, clock, self.relay)
         res = []
         d = c.startNegotiation()
@@ -113,6 +142,10 @@ class Handshake(Job):
         complete = len(inbound) >= len(exp)
         writes = c.transport.w
         wrote_go = b"go\n" in writes
+        mine = ref_handshake(KEY, self.sender)
+        sent = b"".join(x for x in writes if isinstance(x, bytes))
+        if b"transit " in sent:
+            check(mine in sent, "the handshake this side sent is not the one derived from its own transit key")
         if c.state == "records":
             check(complete, "reached 'records' before the whole expected handshake arrived")
             check(agrees, "reached 'records' although the inbound bytes deviate from the expected handshake")
@@ -166,6 +199,9 @@ class Handshake(Job):
         complete = len(inbound) >= len(exp)
         wrote_go = b"go\n" in c.transport.w
         who = "%s%s" % ("sender" if self.sender else "receiver", " via relay" if self.relay else "")
+        sent = b"".join(x for x in c.transport.w if isinstance(x, bytes))
+        if b"transit " in sent and ref_handshake(KEY, self.sender) not in sent:
+            return "%s sent %r, which does not contain the handshake derived from its own key" % (who, sent)
         if c.state == "records":
             if not (complete and agrees):
                 return "%s reached 'records' on inbound %r, expected %r" % (who, inbound, exp)
@@ -524,6 +560,8 @@ def jobs(tier):
                 J.append(Handshake(sender, relay, n, False))
             for n in ((2, 3, 4) if thorough else (2, 3)):
                 J.append(Handshake(sender, relay, n, True))
+            for n in ((0, 1, 2) if thorough else (0, 1)):
+                J.append(Handshake(sender, relay, n, False, decoy=True))
     k = 5 if thorough else 4
     for sender in (True, False):
         J.append(Contenders(sender, 2, k, False, False))
